@@ -656,7 +656,7 @@ func leaseRandom(r *rng) leaseScn {
 				in.fault = append(in.fault, []string{"", "refuse", "error"}[r.intn(3)])
 			}
 		}
-		if r.chance(1, 8) {
+		if r.chance(1, 6) {
 			in.provLat = int64(r.pick(100, 1000, 3000)) * ms
 		}
 		if r.chance(1, 15) {
@@ -673,6 +673,10 @@ func leaseRandom(r *rng) leaseScn {
 	for i := 0; i < ni; i++ {
 		if r.chance(9, 10) {
 			s.script = append(s.script, histAct{t: t, act: fmt.Sprintf("S%d", i)})
+			if s.gen == 2 && s.insts[i].provLat > 0 && r.chance(2, 3) {
+				// a new shared capacity is set while the blobs of the previous one are still being created
+				s.script = append(s.script, histAct{t: t + s.insts[i].provLat/2, act: fmt.Sprintf("c%d:%d", i, uint32(r.pick(int(feff), int(shared+2*feff), int(shared+feff))))})
+			}
 		}
 		t += int64(r.pick(0, 1, 200)) * ms
 	}
